@@ -9,7 +9,9 @@
      Result<usize,usize>::err      bres_err           (the Result of slice::binary_search_by_key is Model.bres)
      Option::and_then              opt_and_then
      Iterator::map / Option::map   vec_mapM / opt_mapM when the closure can trap (map / option_map when it cannot)
-     cur.lines = .. / cur.inlinees = ..   func_set_lines / func_set_inlinees
+     cur.lines = .. / cur.inlinees = ..   func_set_lines / func_set_inlinees;   last_info.size = ..   win_set_size
+     v.last_mut()                  vec_last_split (the borrowed element is stored back wherever the borrow ends)
+     Option::unwrap                opt_unwrap;   x as u32 (from u64)   wrap32;   Range::intersects   C08 intersects
      FrameSymbolizer callbacks     fr_set_function / fr_set_source_file / fr_add_inline_frame on Model.sym_out:
                                    the last set_function / set_source_file call and the add_inline_frame calls in call
                                    order — exactly what the harness's recording FrameSymbolizer prints. *)
@@ -44,6 +46,14 @@ Definition func_set_lines (f : func) (l : list (range * line_rec)) : func :=
   mk_func (fn_addr f) (fn_size f) (fn_psize f) (fn_name f) l (fn_inls f).
 Definition func_set_inlinees (f : func) (l : list inl_rec) : func :=
   mk_func (fn_addr f) (fn_size f) (fn_psize f) (fn_name f) (fn_lines f) l.
+
+(* `if let Some((a, b)) = v.last_mut()`: the vector without its last element, and that element *)
+Definition vec_last_split {A} (v : list A) : option (list A * A) :=
+  match rev v with [] => None | x :: t => Some (rev t, x) end.
+(* Option::unwrap (the only one in the compiled functions is last_info.memory_range().unwrap()) *)
+Definition opt_unwrap {A} (o : option A) : outcome A := match o with Some a => Ret a | None => Panic PANIC_WIN_UNWRAP end.
+(* `last_info.size = ...` *)
+Definition win_set_size (w : win_rec) (sz : Z) : win_rec := mk_win (w_addr w) sz (w_psize w) (w_tag w).
 
 Definition fr_set_function (o : sym_out) (name base psize : Z) : sym_out :=
   mk_out (Some (name, base, psize)) (o_src o) (o_inl o).
